@@ -236,11 +236,7 @@ func (br *xmpReader) readTagValue() (buf []byte, err error) {
 			return
 		}
 		if i == 0 {
-			if buf[i] == '>' {
-				i++
-			} else if buf[i] == '/' && buf[i+1] == '>' {
-				i += 2
-			}
+			// the tag header (or its last attribute) has consumed the closing '>': what follows is the value
 			// removes white space and new lines prefixes
 			for ; i < len(buf); i++ {
 				if isSpace(buf[i]) {
